@@ -387,11 +387,11 @@ static bool model_step_inner(Model &m, Op &op) {
             if (rc == NC_NOERR && op.a[0] == 2) { for (auto &x : f.gatts) if (x.name == op.name) return skip(); MAtt a; a.name = op.name; a.type = NC_INT; a.v = {7}; f.gatts.push_back(a); }
             if (rc == NC_NOERR && op.a[0] == 15) { f.fill = op.a[1] != 0; for (auto &v : f.vars) { v.no_fill = !f.fill; v.fill_known = true; } }
             break;
-        case 4: case 6:                                                                           // collective get / put of one element of variable 0
+        case 4: case 6: case 21:                                                                  // collective get / put of one element of variable 0 (21: the put through ncmpi_mput_vara_double_all)
             if (f.vars.empty()) return skip();
-            if (op.a[0] == 6 && ro) rc = NC_EPERM; else if (def) rc = NC_EINDEFINE; else if (indep) rc = NC_EINDEP;     // documented precedence: EPERM, EINDEFINE, ...
+            if (op.a[0] != 4 && ro) rc = NC_EPERM; else if (def) rc = NC_EINDEFINE; else if (indep) rc = NC_EINDEP;     // documented precedence: EPERM, EINDEFINE, ...
             break;
-        case 5:                                                                                   // independent get
+        case 5: case 22:                                                                          // independent get (22: through ncmpi_mget_vara_double)
             if (f.vars.empty()) return skip();
             if (def) rc = NC_EINDEFINE; else if (coll) rc = NC_ENOTINDEP;
             break;
@@ -406,13 +406,14 @@ static bool model_step_inner(Model &m, Op &op) {
             rc = NC_EVARSIZE; f.poisoned = true; break;
         default: return skip();
         }
-        if ((op.a[0] == 4 || op.a[0] == 5 || op.a[0] == 6) && rc == NC_NOERR) {
+        if ((op.a[0] == 4 || op.a[0] == 5 || op.a[0] == 6 || op.a[0] == 21 || op.a[0] == 22) && rc == NC_NOERR) {
             // the transfer itself: element 0 of variable 0 (records: record 0 must exist for reads)
             MVar &v = f.vars[0];
             if (v.type == NC_CHAR) return skip();
-            if (v.isrec && f.numrecs == 0 && op.a[0] != 6) return skip();
+            bool isput = op.a[0] == 6 || op.a[0] == 21;
+            if (v.isrec && f.numrecs == 0 && !isput) return skip();
             if (v.recelems == 0) return skip();
-            if (op.a[0] == 6) { ensure_records(v, 1); Cell &c = v.cells[0]; c.st = CS_UNKNOWN; c.wmask = 0xff; if (v.isrec && f.numrecs < 1) { f.numrecs = 1; sync_numrecs(f); } }
+            if (isput) { ensure_records(v, 1); Cell &c = v.cells[0]; c.st = CS_UNKNOWN; c.wmask = 0xff; if (v.isrec && f.numrecs < 1) { f.numrecs = 1; sync_numrecs(f); } }
         }
         if ((op.a[0] == 8 || op.a[0] == 9) && rc == NC_NOERR) { for (auto &r : f.ranks) for (auto &q : r.reqs) if (q.live) return skip(); }
         if (op.a[0] == 10) for (auto &r : f.ranks) for (auto &q : r.reqs) if (q.live) return skip();
@@ -425,7 +426,7 @@ static bool model_step_inner(Model &m, Op &op) {
         f.saved = std::make_shared<MFile>(f); f.saved->saved.reset(); f.saved->mode = FM_COLL;
         f.mode = FM_DEFINE; f.in_redef = true; return true;
     }
-    case OP_ENDDEF: case OP_ENDDEF2: if (f.open && f.poisoned) { if (op.a[4] == 1 && op.kind == OP_ENDDEF) { op.exp_rc = NC_EVARSIZE; return true; } return skip(); } if (op.a[4] == 1 && f.open && f.mode != FM_DEFINE && op.kind == OP_ENDDEF) { op.exp_rc = NC_ENOTINDEFINE; return true; } if (!f.open || f.mode != FM_DEFINE) return skip(); { bool wf = f.fresh; do_enddef(f); f.first_layout = wf; for (int k = 0; k < 4; k++) f.ed[k] = (op.kind == OP_ENDDEF2) ? op.a[k] : 0; } m.snap_state[op.file] = 0; return true;
+    case OP_ENDDEF: case OP_ENDDEF2: if (f.open && f.poisoned) { if (op.a[4] == 1) { op.exp_rc = NC_EVARSIZE; return true; } return skip(); } if (op.a[4] == 1 && f.open && f.mode != FM_DEFINE) { op.exp_rc = NC_ENOTINDEFINE; return true; } if (!f.open || f.mode != FM_DEFINE) return skip(); { bool wf = f.fresh; do_enddef(f); f.first_layout = wf; for (int k = 0; k < 4; k++) f.ed[k] = (op.kind == OP_ENDDEF2) ? op.a[k] : 0; } m.snap_state[op.file] = 0; return true;
     // collective and independent accesses go through different MPI file handles (and, with aggregation, through other ranks): data written
     // before a mode switch is only ordered with accesses after it by the documented sync-barrier-sync, even on the writing rank itself
     case OP_BEGIN_INDEP: if (op.a[4] == 1 && f.open && f.mode == FM_DEFINE) { op.exp_rc = NC_EINDEFINE; return true; } if (op.a[4] == 1 && f.open && f.mode == FM_INDEP) { op.exp_rc = NC_NOERR; return true; } if (!f.open || f.mode != FM_COLL) return skip(); f.mode = FM_INDEP; for (auto &v : f.vars) for (auto &c : v.cells) if (c.wmask) c.wmask = 0xff; return true;
